@@ -755,6 +755,8 @@ class Ctx:
             return x["s"] >= 2
         if k == "loc":
             return x["a"] == 1
+        if k == "op":
+            return x["v"] == OP_IDS["^c"]        # the one operator spelled with a letter
         return False
 
     def en_regalias(self, q):
